@@ -281,7 +281,7 @@ def kani_group(scratch, hs, jobs, logdir, tag):
             data = None
     if data is None:
         raise Inconclusive('kani produced no result file (rc=%s, timed_out=%s); see %s' % (rc, timed_out, logdir))
-    stats = {c['harness_id']: c.get('cbmc_stats', {}) for c in data.get('cbmc', [])}
+    stats = {c['harness_id']: (c.get('cbmc_stats') or {}) for c in data.get('cbmc', [])}
     errors = {e['harness_id']: e for e in data.get('error_details', [])}
     for r in data['verification_results']['results']:
         hid = r['harness_id']
@@ -297,9 +297,24 @@ def kani_group(scratch, hs, jobs, logdir, tag):
     return res
 
 
-def classify(h, r):
+def attributed(c, prop):
+    """Assertion messages may carry a tag "[C05,C12] ...": such a check only counts for the listed
+    properties.  Untagged checks (Kani's default panic/overflow/index checks, untagged assertions)
+    count for every property the harness serves."""
+    tags = re.findall(r'\[(C\d+(?:\s*,\s*C\d+)*)\]', c.get('description', ''))
+    if not tags:
+        return True
+    ids = set()
+    for t in tags:
+        ids.update(x.strip() for x in t.split(','))
+    return prop in ids
+
+
+def classify(h, r, prop=None):
     """-> (verdict, failing_checks, notes).  verdict in pass|fail|inconclusive"""
     checks = r['checks']
+    if prop:
+        checks = [c for c in checks if c['status'] != 'Failure' or attributed(c, prop)]
     st = r['status']
     err = r.get('error', {})
     failing = [c for c in checks if c['status'] in ('Failure',)]
@@ -486,7 +501,7 @@ def run_check(prop, tier, seed, only=None, write_evidence=True):
             for h in hs:
                 r = res['harness'][h.full]
                 results[h.name] = r
-                v, failing, notes = classify(h, r)
+                v, failing, notes = classify(h, r, prop)
                 if h.canary:
                     # vacuity canary: a twin ending in assert!(false) must FAIL
                     if v == 'fail':
